@@ -391,3 +391,21 @@ Proof.
   { induction g as [|c g IH]; intros m'; cbn [fold_left]; [apply incl_refl|]. eapply incl_tran; [apply IH|]. unfold cell_ids. cbn [mcells]. apply adel_keys_incl. }
   eapply incl_tran; [apply H2|]. unfold cell_ids. rewrite H1. apply incl_refl.
 Qed.
+
+(* ------------------------------------------------------------------ the inner-triangle pass loses no cell *)
+Lemma tri_step_cells abe fl inner st i : incl (cell_ids (fst st)) (cell_ids (fst (tri_step abe fl inner st i))).
+Proof.
+  destruct st as [m visited]. unfold tri_step. cbn [fst].
+  destruct (existsb _ visited || existsb _ visited); [apply incl_refl|].
+  destruct (Nat.ltb 3 _); [apply incl_refl|]. cbn [fst]. unfold cell_ids at 2. rewrite remove_vertex_mcells.
+  apply (fold_left_incl (replace_in_cell _ _) cell_ids (replace_in_cell_cells _ _)).
+Qed.
+Theorem inner_triangles_keep_every_cell m : incl (cell_ids m) (cell_ids (inner_triangles m)).
+Proof.
+  unfold inner_triangles.
+  set (abe := Interfaces.create_edges_new _ _). set (fl := _ ++ _). set (inner := filter _ _).
+  generalize (seq 0 (pred (length inner))). intros l.
+  assert (H : forall l st, incl (cell_ids (fst st)) (cell_ids (fst (fold_left (tri_step abe fl inner) l st)))).
+  { induction l0 as [|i l0 IH]; intros st; cbn [fold_left]; [apply incl_refl|]. eapply incl_tran; [apply tri_step_cells | apply IH]. }
+  exact (H l (m, [])).
+Qed.
